@@ -79,7 +79,8 @@ Key(id, alg, bits, e, wf) == [id |-> id, alg |-> alg, bits |-> bits, e |-> e, wf
 GoodKeys == {Key("rsa2048", "rsa", 2048, 65537, TRUE), Key("rsa3072", "rsa", 3072, 65537, TRUE),
              Key("p256", "ecdsa", 256, 0, TRUE), Key("p384", "ecdsa", 384, 0, TRUE),
              Key("ed25519", "ed25519", 256, 0, TRUE)}
-WeakKeys == {Key("rsa512", "rsa", 512, 65537, TRUE), Key("rsa1024", "rsa", 1024, 65537, TRUE),
+\* rsa1024_edlabel: a 1024-bit RSA key whose ssh line is labelled "ssh-ed25519"
+WeakKeys == {Key("rsa1024_edlabel", "rsa", 1024, 65537, TRUE), Key("rsa512", "rsa", 512, 65537, TRUE), Key("rsa1024", "rsa", 1024, 65537, TRUE),
              Key("rsa2040", "rsa", 2040, 65537, TRUE), Key("rsa2047", "rsa", 2047, 65537, TRUE),
              Key("rsa2048e3", "rsa", 2048, 3, TRUE), Key("rsa2048e17", "rsa", 2048, 17, TRUE),
              Key("rsa2048e65535", "rsa", 2048, 65535, TRUE), Key("rsa3072e3", "rsa", 3072, 3, TRUE),
